@@ -7,6 +7,8 @@
      d <path> <parent label> <name>                     cg_delete_node(name) at that position   -> "d <status>"
      v <path> <parent label> <label>                    the session view of one kind            -> "v <n> name:payload,..."
      reopen ...                                         cg_close + cg_open: every instance      -> "o 0"
+     drop <path>                                        forget the instances at and below <path> (a single child the model
+                                                        does not represent was deleted)         -> nothing
      tables                                             verdicts of the decidable table predicates and the diagnostic lists
    Writing or deleting an entity drops every instance below <path>/<name> (the subtree is gone from file and memory).
    Every other command of the C script (ft, compress, open, mk ...) is ignored by this engine. *)
@@ -106,6 +108,7 @@ let run () =
             let pl = match Hashtbl.find_opt labels k with Some l -> l | None -> "" in
             Hashtbl.replace insts k (reopen (cgns_sorted (cs pl)) (Hashtbl.find insts k))) keys;
         Printf.printf "o 0\n"
+    | ["drop"; path] -> drop_below path
     | ["tables"] -> tables ()
     | _ -> ());
     flush stdout
